@@ -378,6 +378,9 @@ class Defs:
         return out
 
 
+ERR_ONLY = re.compile(r'::(map_err|ok_or_else|ok_or|inspect_err|with_context|context)$')
+
+
 class Slice:
     def __init__(self):
         self.locals = set()
@@ -458,6 +461,12 @@ def backward_slice(fn, start_ops, defs=None, cut_calls=(), max_nodes=4000, cd=No
                     sl.calls.add(c.resolved)
                     continue
                 sl.calls.add(c.resolved)
+                if ERR_ONLY.search(c.generic):
+                    # map_err / ok_or_else / inspect_err: the closure only builds the error value;
+                    # the Ok/Some payload that flows on depends on the receiver alone
+                    if c.args:
+                        add_op(c.args[0])
+                    continue
                 for a in c.args:
                     add_op(a)
     return sl
